@@ -291,7 +291,118 @@ def gen_c15():
     return "\n".join(out) + "\n"
 
 
-GENERATORS = {"C15Tables.lean": gen_c15}
+# ---------------------------------------------------------------------------------------------- the call (round 5)
+def extract_call():
+    """Literal facts about the CALL of merge_parts that the model of Model/MergeCall.lean copies:
+      reassignParam / reassignDefault   name and default value of the second parameter (inspect.signature)
+      scoreArgAttr     the attribute read from a Score argument: `if isinstance(<parts>, Score): <parts> = <parts>.<attr>`
+      loadPositional / loadReassign / loadArgAttr
+                       the one call `merge_parts(...)` in load_score_as_part: number of positional arguments, the
+                       constant passed for `reassign` (None = left at its default), the attribute of the loaded
+                       score that is passed (`scr.parts`)
+      iterContainers   the types iter_parts iterates over directly (`isinstance(partlist, (list, tuple, set))`)
+      iterLeaf         the class whose instances iter_parts yields
+      iterChildAttrs   the attributes iter_parts reads from an element that is not such an instance"""
+    import partitura.io as IO
+    import partitura.score as S
+
+    sig = list(inspect.signature(S.merge_parts).parameters.values())
+    if len(sig) != 2 or not isinstance(sig[1].default, str):
+        raise Unexpected("merge_parts(parts, reassign=<str>) expected")
+    out = {"param": sig[1].name, "default": sig[1].default}
+    fn = ast.parse(textwrap.dedent(inspect.getsource(S.merge_parts))).body[0]
+    arg0 = fn.args.args[0].arg
+    attrs = []
+    for n in ast.walk(fn):
+        if isinstance(n, ast.If):
+            t = _isinstance_of_e(n.test, arg0)
+            if t is not None and isinstance(t, ast.Name) and t.id == "Score":
+                for st in n.body:
+                    if (isinstance(st, ast.Assign) and isinstance(st.value, ast.Attribute)
+                            and isinstance(st.value.value, ast.Name) and st.value.value.id == arg0):
+                        attrs.append(st.value.attr)
+    if len(attrs) != 1:
+        raise Unexpected("Score branch of merge_parts not found")
+    out["scoreAttr"] = attrs[0]
+    # ---- load_score_as_part
+    lf = ast.parse(textwrap.dedent(inspect.getsource(IO.load_score_as_part))).body[0]
+    calls = [n for n in ast.walk(lf) if isinstance(n, ast.Call)
+             and ((isinstance(n.func, ast.Name) and n.func.id == "merge_parts")
+                  or (isinstance(n.func, ast.Attribute) and n.func.attr == "merge_parts"))]
+    if len(calls) != 1:
+        raise Unexpected("load_score_as_part: one call of merge_parts expected")
+    c = calls[0]
+    if any(isinstance(a, ast.Starred) for a in c.args) or any(k.arg is None for k in c.keywords):
+        raise Unexpected("load_score_as_part: star arguments")
+    kws = {k.arg: k.value for k in c.keywords}
+    if set(kws) - {arg0, out["param"]}:
+        raise Unexpected("load_score_as_part: unknown keyword")
+    first = c.args[0] if c.args else kws.get(arg0)
+    second = c.args[1] if len(c.args) > 1 else kws.get(out["param"])
+    if first is None or len(c.args) > 2:
+        raise Unexpected("load_score_as_part: argument of merge_parts not found")
+    if second is not None and not (isinstance(second, ast.Constant) and isinstance(second.value, str)):
+        raise Unexpected("load_score_as_part: reassign is not a constant")
+    out["loadPositional"] = len(c.args)
+    out["loadReassign"] = None if second is None else second.value
+    out["loadArgAttr"] = first.attr if isinstance(first, ast.Attribute) else ""
+    # ---- iter_parts
+    it = ast.parse(textwrap.dedent(inspect.getsource(S.iter_parts))).body[0]
+    p0 = it.args.args[0].arg
+    conts, leaf, child = [], [], []
+    loopvars = {n.target.id for n in ast.walk(it) if isinstance(n, ast.For) and isinstance(n.target, ast.Name)}
+    for n in ast.walk(it):
+        if isinstance(n, ast.Call) and isinstance(n.func, ast.Name) and n.func.id == "isinstance" and len(n.args) == 2:
+            who, what = n.args
+            if isinstance(who, ast.Name) and who.id == p0 and isinstance(what, (ast.Tuple, ast.List)):
+                conts += [e.id for e in what.elts if isinstance(e, ast.Name)]
+            elif isinstance(who, ast.Name) and who.id in loopvars:
+                leaf += _names_of(what, {})
+        if isinstance(n, ast.Attribute) and isinstance(n.value, ast.Name) and n.value.id in loopvars:
+            if n.attr not in child:
+                child.append(n.attr)
+    if not conts or not leaf:
+        raise Unexpected("iter_parts: container types / leaf class not found")
+    out["iterContainers"], out["iterLeaf"], out["iterChildAttrs"] = conts, sorted(set(leaf)), sorted(child)
+    return out
+
+
+def gen_c15_call():
+    ok, err = True, ""
+    try:
+        t = extract_call()
+    except Exception as e:  # noqa: BLE001 - any failure must stay local to C15
+        ok, err = False, "%s: %s" % (type(e).__name__, e)
+        t = {"param": "", "default": "", "scoreAttr": "", "loadPositional": 0, "loadReassign": None, "loadArgAttr": "",
+             "iterContainers": [], "iterLeaf": [], "iterChildAttrs": []}
+    out = []
+    w = out.append
+    w("/- GENERATED by harness/translate_c15.py from the live source of partitura.score.merge_parts / iter_parts and")
+    w("   partitura.io.load_score_as_part (inspect.signature, ast).  Do not edit. -/")
+    w("namespace Gen.C15\n")
+    w("/-- the sources had the expected form%s -/" % ("" if ok else " - NO: " + err.replace("-/", "- /")))
+    w("def callOk : Bool := %s\n" % ("true" if ok else "false"))
+    w("/-- name and default value of the second parameter of `merge_parts` -/")
+    w('def reassignParam : String := "%s"' % t["param"])
+    w('def reassignDefault : String := "%s"\n' % t["default"])
+    w("/-- `if isinstance(parts, Score): parts = parts.<attr>` -/")
+    w('def scoreArgAttr : String := "%s"\n' % t["scoreAttr"])
+    w("/-- the call of `merge_parts` in `load_score_as_part`: positional arguments, constant passed for `reassign`")
+    w("(none = left at its default), attribute of the loaded score that is passed -/")
+    w("def loadPositional : Nat := %d" % t["loadPositional"])
+    w("def loadReassign : Option String := %s" % ("none" if t["loadReassign"] is None else 'some "%s"' % t["loadReassign"]))
+    w('def loadArgAttr : String := "%s"\n' % t["loadArgAttr"])
+    w("/-- `iter_parts`: the types it iterates over directly, the class it yields, the attributes it reads from any")
+    w("other element -/")
+    w("def iterContainers : List String := %s" % _ls(t["iterContainers"]))
+    w("def iterLeaf : List String := %s" % _ls(t["iterLeaf"]))
+    w("def iterChildAttrs : List String := %s\n" % _ls(t["iterChildAttrs"]))
+    w("end Gen.C15")
+    return "\n".join(out) + "\n"
+
+
+GENERATORS = {"C15Tables.lean": gen_c15, "C15Call.lean": gen_c15_call}
 
 if __name__ == "__main__":
     print(gen_c15())
+    print(gen_c15_call())
